@@ -28,9 +28,11 @@ MASK_TEST_FLOOR = {"__getitem__": 2, "__contains__": 2, "__iter__": 2, "detype":
 
 
 def _mentions_mask(node, var=None):
+    """a comparison with DELETE_VAR (of ``var``, a name or a set of names holding the same value)"""
+    vs = None if var is None else ({var} if isinstance(var, str) else set(var))
     for n in ast.walk(node):
         if isinstance(n, ast.Compare) and any(isinstance(o, (ast.Is, ast.IsNot)) for o in n.ops) and any(unparse(c) == "DELETE_VAR" for c in n.comparators):
-            if var is None or var in unparse(n.left):
+            if vs is None or any(v in unparse(n.left) for v in vs):
                 return True
     return False
 
@@ -45,7 +47,7 @@ def check(ctx):
     mod = ctx.repo.module(EN)
     env_cls = mod.cls("Env")
     meths = class_methods(env_cls)
-    swap = mod.func("Env.swap")
+    swap = flat(ctx, mod.func("Env.swap"), depth=2, skip=("_set_item", "_del_item", "_capture_for_swap"))
     st = f"{EN}:Env.swap"
     cfg = CFG(swap, catchall=("BaseException",))
     sets = [n for n in cfg.nodes if n.kind == "stmt" and any(call_name(c) == "self._set_item" for c in calls_in(n.ast))]
@@ -71,7 +73,8 @@ def check(ctx):
         ok = bool(same_iter) and all(m.ast.lineno < n.ast.lineno for m in same_iter) and cfg.dominated(n, lambda mm: mm in same_iter)
         ctx.ob("R1", st, f"`{short(c)}`: the previous state of the key is captured first, in the same iteration", ok, key="swap|set-before-capture", where=loc(c))
     # restore in finally
-    restore_loops = [n for n in cfg.nodes if n.kind == "for" and unparse(n.ast.iter) in (f"{capd}.items()", capd, f"list({capd}.items())")]
+    cap_names = copies_of(df.all_defs(swap), capd)
+    restore_loops = [n for n in cfg.nodes if n.kind == "for" and any(unparse(n.ast.iter) in (f"{c_}.items()", c_, f"list({c_}.items())") for c_ in cap_names)]
     ok = bool(restore_loops)
     path = None
     if ok:
@@ -83,8 +86,7 @@ def check(ctx):
     dels = [n for n in cfg.nodes if n.kind == "stmt" and any(call_name(c) == "self._del_item" and const_value(kwarg(c, "thread_local")) is True for c in calls_in(n.ast))]
     ok = False
     for d in dels:
-        facts = facts_text(facts_at(cfg, d))
-        if any(f.endswith("is NotImplemented") and not f.startswith("not ") for f in facts):
+        if any(t.endswith("is NotImplemented") and pol for t, pol in nfacts(cfg, d)):
             ok = True
     ctx.ob("R1", st, "a key that did not exist before (NotImplemented marker) is deleted again on exit", ok, key="swap|no-delete-for-new-key", where=loc(swap))
     cap = mod.func("Env._capture_for_swap")
@@ -115,6 +117,7 @@ def check(ctx):
         if fn is None:
             raise AnchorMissing(f"{EN}:Env.{name}")
         st2 = f"{EN}:Env.{name}"
+        fn = flat(ctx, fn, depth=2, skip=("get_detyper", "rawkeys", "_resolve_default", "get_converter"))
         c2 = CFG(fn)
         defs = df.all_defs(fn)
         # names that hold overlay dicts / the store / a merged copy
@@ -154,21 +157,22 @@ def check(ctx):
                 if var is None:
                     ctx.ob("R2", st2, f"`{short(x, 60)}`: value read from a layer is bound to a name or compared at once", False, key=f"{name}|unrecognised-read|{unparse(x)}", where=loc(x))
                     continue
-                tests = lambda m, var=var: m.kind in ("if", "while") and _mentions_mask(m.ast.test, var)
+                vset = copies_of(defs, var)
+                tests = lambda m, var=vset: m.kind in ("if", "while") and _mentions_mask(m.ast.test, var)
                 starts = [m for m, l in node.succ if l in (None, "iter") and not tests(m)]
 
-                def uses(m, var=var):
-                    if m.kind != "stmt":
+                def uses(m, var=vset):
+                    if m.kind != "stmt" or getattr(m.ast, "_xv_call_marker", False) or getattr(m.ast, "_xv_bind", False):
                         return False
                     a = m.ast
-                    if isinstance(a, ast.Return) and a.value is not None and var in df.names_read(a.value):
+                    if isinstance(a, ast.Return) and a.value is not None and var & df.names_read(a.value):
                         return True
-                    if any(isinstance(z, (ast.Yield, ast.YieldFrom)) and z.value is not None and var in df.names_read(z.value) for z in ast.walk(a)):
+                    if any(isinstance(z, (ast.Yield, ast.YieldFrom)) and z.value is not None and var & df.names_read(z.value) for z in ast.walk(a)):
                         return True
-                    if isinstance(a, ast.Assign) and isinstance(a.targets[0], ast.Subscript) and var in df.names_read(a.value):
+                    if isinstance(a, ast.Assign) and isinstance(a.targets[0], ast.Subscript) and var & df.names_read(a.value):
                         return True
                     # value passed to something that exports it (detyper(val))
-                    if any(isinstance(z, ast.Call) and any(var == unparse(g) for g in z.args) and not (call_name(z) or "").startswith("isinstance") for z in ast.walk(a)):
+                    if any(isinstance(z, ast.Call) and any(unparse(g) in var for g in z.args) and not (call_name(z) or "").startswith("isinstance") for z in ast.walk(a)):
                         return True
                     return False
 
@@ -201,6 +205,15 @@ def check(ctx):
                     facts = facts_text(facts_at(icfg, n))
                     if not any(f"{v} is DELETE_VAR" in f and not f.startswith("not ") for f in facts):
                         ok = True  # recorded for every key, masked or not -> shadowing possible
+    # other accepted idiom: the layers are merged bottom-up (forward over the stack, later layers overwrite), and
+    # the mask is read from the merged mapping — the same shape detype() uses
+    for dc in (n for n in ast.walk(it) if isinstance(n, ast.DictComp)):
+        g = dc.generators
+        if len(g) == 2 and unparse(g[0].iter) == "self._overlay_stack" and isinstance(g[0].target, ast.Name) and unparse(g[1].iter) == f"{g[0].target.id}.items()" and isinstance(g[1].target, ast.Tuple) and [unparse(e) for e in g[1].target.elts] == [unparse(dc.key), unparse(dc.value)] and not g[0].ifs and not g[1].ifs:
+            ok = True
+    for l in loops:
+        if unparse(l.iter) == "self._overlay_stack" and any(last_attr(c) == "update" and c.args and unparse(c.args[0]) == unparse(l.target) for c in calls_in(ast.Module(body=l.body, type_ignores=[]), local=False)):
+            ok = True
     ctx.ob("R2", f"{EN}:Env.__iter__", "iteration decides a key's mask at the top-most overlay that contains it (a value above a mask unmasks, as in [] / in / detype)", ok, key="__iter__|mask-not-shadowed", where=loc(it))
     dt = meths["detype"]
     loops = [n for n in ast.walk(dt) if isinstance(n, ast.For) and "_overlay_stack" in unparse(n.iter)]
